@@ -27,6 +27,10 @@ LEVEL_NOTE = ("Schedules are bounded to the first k calls of each side; the send
 TECHNIQUE = "TLA+ mechanism specs + TLC exhaustive schedule/transition enumeration replayed on the implementation by link-time fault injection"
 DESIGN_REF = "DESIGN.md section 6 C19"
 
+from vlib.core import NCPU
+from vlib.replay import ASAN_OPTS
+J = max(2, min(NCPU, 8))      # VERIF_JOBS
+RECYCLE_ASAN = ASAN_OPTS.replace("max_malloc_fill_size=4096", "max_malloc_fill_size=0") + ":quarantine_size_mb=0:thread_local_quarantine_size_kb=0"
 WRAPS = "read write accept socket bind connect listen close dup select getprotobyname getservbyname".split()
 os.environ.setdefault("JAVA_TOOL_OPTIONS", "-XX:ParallelGCThreads=4")
 ASBUILT_XFER = [("SockXfer_asbuilt_send.cfg", "SendCompleteMeansAll"), ("SockXfer_asbuilt_recv_cursor.cfg", "CursorInsideBuffer"),
@@ -91,7 +95,7 @@ def xfer(ctx, exe, cfg, tag, cyc=False, env=None, sample=None):
         beh, res = _BEH[cfg]
     else:
         beh = []
-        res = run_tlc("MC_SockXfer.tla", cfg, ctx.rundir, on_edge=beh.append, timeout=1800, workers=4, heap="6g", coverage=False)
+        res = run_tlc("MC_SockXfer.tla", cfg, ctx.rundir, on_edge=beh.append, timeout=1800, workers=J, heap="6g", coverage=False)
         _BEH[cfg] = (beh, res)
     if sample is None:
         ctx.add("states", res.distinct)
@@ -108,7 +112,7 @@ def xfer(ctx, exe, cfg, tag, cyc=False, env=None, sample=None):
     # vacuity: every outcome kind must occur in some schedule
     kinds_w = {k for b in beh for k, n in b[wk]}
     kinds_r = {k for b in beh for k, n in b[rk]}
-    if not {"ok", "sh", "ei", "ea"} <= kinds_w or not {"ok", "sh", "ei"} <= kinds_r or (not cyc and "end" not in kinds_r):
+    if not {"ok", "sh", "ei", "ea"} <= kinds_w or not {"ok", "sh", "ei"} <= kinds_r or (tag == "xfer" and "end" not in kinds_r):
         raise Broken("vacuity: outcome kinds missing from the emitted schedules: w=%s r=%s" % (kinds_w, kinds_r))
     if cyc and max(b["retries"] for b in beh) < 150:
         raise Broken("vacuity: no long transfer with more than 150 interrupted writes was generated")
@@ -117,7 +121,7 @@ def xfer(ctx, exe, cfg, tag, cyc=False, env=None, sample=None):
     seen = set()
     texts, meta = [], []
     for b in beh:
-        key = (b["len"], b["mode"], tok(b[wk]), tok(b[rk]))
+        key = (b["len"], b["mode"], tok(b[wk]), tok(b[rk]), b["plen"])
         if key in seen:
             continue
         seen.add(key)
@@ -127,11 +131,11 @@ def xfer(ctx, exe, cfg, tag, cyc=False, env=None, sample=None):
         meta = rnd.sample(meta, sample)
     for b in meta:
         sid = len(texts) + 1
-        st = {"data": True, "len": b["rlen"], "open": 0, "send": b["send"]}
+        st = {"data": True, "len": b["rlen"], "name": b["name"], "open": 0, "send": b["send"]}
         ret = {"rc": b["rcalls"] if cyc else len(b["r"]), "rcalls": b["rcalls"], "retries": b["retries"],
                "wc": b["wcalls"] if cyc else len(b["w"]), "wcalls": b["wcalls"]}
-        texts.append("S %d\nxfer %d %s %s %s%s = %s %s\nE\n" % (sid, b["len"], b["mode"], tok(b[wk]), tok(b[rk]), " cyc" if cyc else "",
-                                                             tok(ret), tok(st)))
+        texts.append("S %d\nxfer %d %s %s %s %d%s = %s %s\nE\n" % (sid, b["len"], b["mode"], tok(b[wk]), tok(b[rk]), b["plen"],
+                                                                " cyc" if cyc else "", tok(ret), tok(st)))
     order = list(range(len(texts)))
     rnd.shuffle(order)                      # mix cheap and expensive schedules over the worker processes
     # batches, so that a tree on which (nearly) every transfer dies is reported within the time budget
@@ -140,7 +144,7 @@ def xfer(ctx, exe, cfg, tag, cyc=False, env=None, sample=None):
     renv = {"VH_WATCHDOG": "30" if cyc else "10"}
     renv.update(env or {})
     for c0 in range(0, len(order), BATCH):
-        f_, _, ns_, nt_ = run_scripts(exe, [], [texts[i] for i in order[c0:c0 + BATCH]], ctx.rundir, jobs=4, tag="%s%d" % (tag, c0), env=renv)
+        f_, _, ns_, nt_ = run_scripts(exe, [], [texts[i] for i in order[c0:c0 + BATCH]], ctx.rundir, jobs=J, tag="%s%d" % (tag, c0), env=renv)
         fails += f_
         ns += ns_
         nt += nt_
@@ -163,7 +167,7 @@ def xfer(ctx, exe, cfg, tag, cyc=False, env=None, sample=None):
             d = re.sub(r"\d+", "N", f.got)
         else:
             d = f.sig
-        cls = sched_class(dict(b, w=b[wk], r=b[rk])) + (",cyclic" if cyc else "")
+        cls = sched_class(dict(b, w=b[wk], r=b[rk])) + (",cyclic" if cyc else "") + (",path=%d" % b["plen"] if b["plen"] else "")
         key = ("%s %s/%s" % (tag, f.kind, d)) if f.kind in ("crash", "hang", "exit") else "%s [%s] %s/%s" % (tag, cls, f.kind, d)
         if key not in keys_seen and len(keys_seen) >= 40:
             unlisted += 1                   # enough distinct classes listed; the rest is counted
@@ -177,7 +181,7 @@ def xfer(ctx, exe, cfg, tag, cyc=False, env=None, sample=None):
         ctx.notes.append("%d further failing %s observations in classes beyond the 40 listed" % (unlisted, tag))
     ctx.cov[tag] = {"schedules": len(texts), "nontrivial": nontrivial, "failed": len(failed_sids)}
     for b in rnd.sample(meta, min(2, len(meta))):
-        ctx.sample({"family": tag, "len": b["len"], "mode": b["mode"], "write": b[wk], "read": b[rk],
+        ctx.sample({"family": tag, "len": b["len"], "mode": b["mode"], "path_length": b["plen"], "write": b[wk], "read": b[rk],
                     "predicted": {"wcalls": b["wcalls"], "rcalls": b["rcalls"], "retries": b["retries"], "received": b["rlen"]}})
 
 
@@ -210,7 +214,7 @@ def life_graph(ctx, cfg, need):
         if not init and not any(e["pre"]["o"]["ex"]):
             init.append(tok(e["pre"]))
         g.add(e)
-    res = run_tlc("MC_SockLife.tla", cfg, ctx.rundir, on_edge=on_edge, timeout=1800, workers=4, heap="6g", coverage=False)
+    res = run_tlc("MC_SockLife.tla", cfg, ctx.rundir, on_edge=on_edge, timeout=1800, workers=J, heap="6g", coverage=False)
     ctx.add("states", res.distinct)
     ctx.add("transitions", res.generated)
     ctx.add("edges_emitted", res.edges)
@@ -237,7 +241,7 @@ def life(ctx, exe):
             "open:nolistener", "open:unbound", "open:isconn", "accept:ok", "accept:eagain", "accept:dupfail", "accept:eintr",
             "accept:bad", "send:ok", "send:epipe", "send:reset", "send:badfd", "send:notconn", "send:peerdead", "close:ok", "close:eintr"}
     g, init = life_graph(ctx, "SockLife_quick.cfg" if q else "SockLife_thorough.cfg", need)
-    objcheck.replay_cover(ctx, g, [init], exe, "life", [], life_keyfn, walks=(200, 40) if q else (2000, 60), jobs=4,
+    objcheck.replay_cover(ctx, g, [init], exe, "life", [], life_keyfn, walks=(200, 40) if q else (2000, 60), jobs=J,
                           env={"VH_WATCHDOG": "10"})
     ctx.add("distinct_nontrivial", ctx.cov["replay"]["life"]["scripts"])   # every lifecycle script opens/closes an object or is refused
     # resource threshold: the same transitions with the process holding > 1000 descriptors, so that what the library opens
@@ -246,7 +250,7 @@ def life(ctx, exe):
         for k in ([0] if q else [0, 3]):
             v = "life-hifd%d" % k
             objcheck.replay_cover(ctx, g, [init], exe, v, [], life_keyfn, walks=(100, 40) if q else (500, 60),
-                                  jobs=4, env={"VH_WATCHDOG": "20", "VH_HIFD": str(k)}, max_levels=7 if q else 9)
+                                  jobs=J, env={"VH_WATCHDOG": "20", "VH_HIFD": str(k)}, max_levels=7 if q else 9)
             ctx.add("distinct_nontrivial", ctx.cov["replay"][v]["scripts"])
     del g
     # 2. the mode dimension: the object's NBIO flag beside the descriptor's real O_NONBLOCK mode, set_nbio / clear_nbio on every
@@ -254,12 +258,12 @@ def life(ctx, exe):
     need2 = {"new", "recv", "set_nbio", "clear_nbio", "dup:ok", "dup:fail", "del", "open:ok", "open:isconn", "accept:ok", "accept:eagain",
              "accept:dupfail", "close:ok"}
     g2, init2 = life_graph(ctx, "SockLife_mode_quick.cfg" if q else "SockLife_mode_thorough.cfg", need2)
-    objcheck.replay_cover(ctx, g2, [init2], exe, "mode", [], life_keyfn, walks=(300, 40) if q else (3000, 60), jobs=4,
+    objcheck.replay_cover(ctx, g2, [init2], exe, "mode", [], life_keyfn, walks=(300, 40) if q else (3000, 60), jobs=J,
                           env={"VH_WATCHDOG": "10"})
     ctx.add("distinct_nontrivial", ctx.cov["replay"]["mode"]["scripts"])
     if hifd:
         objcheck.replay_cover(ctx, g2, [init2], exe, "mode-hifd0", [], life_keyfn, walks=(100, 40) if q else (500, 60),
-                              jobs=4, env={"VH_WATCHDOG": "20", "VH_HIFD": "0"}, max_levels=7 if q else 9)
+                              jobs=J, env={"VH_WATCHDOG": "20", "VH_HIFD": "0"}, max_levels=7 if q else 9)
         ctx.add("distinct_nontrivial", ctx.cov["replay"]["mode-hifd0"]["scripts"])
 
 
@@ -270,6 +274,10 @@ def run(ctx):
     q = ctx.tier == "quick"
     xfer(ctx, exe, "SockXfer_quick.cfg" if q else "SockXfer_thorough.cfg", "xfer")
     xfer(ctx, exe, "SockXfer_long_quick.cfg" if q else "SockXfer_long_thorough.cfg", "xfer-long", cyc=True)
+    # the environment as input: socket paths across what sun_path holds, with a dirtied heap behind the addresses; the second
+    # run lets the allocator hand recycled blocks straight back (no quarantine, no fill) so that stale bytes differ per address
+    xfer(ctx, exe, "SockXfer_path.cfg", "xfer-path")
+    xfer(ctx, exe, "SockXfer_path.cfg", "xfer-path-recycled", env={"ASAN_OPTIONS": RECYCLE_ASAN}, sample=280 if q else 840)
     if hifd_possible(ctx):
         xfer(ctx, exe, "SockXfer_quick.cfg", "xfer-hifd3", env={"VH_HIFD": "3"}, sample=400 if q else 4000)
         xfer(ctx, exe, "SockXfer_quick.cfg", "xfer-hifd0", env={"VH_HIFD": "0"}, sample=200 if q else 2000)
